@@ -119,7 +119,7 @@ func bigStr(v *big.Int) string {
 // keepStack records the stack of a step: its depth, a hash over all of it, and a copy of the
 // top stackKeep items (enough for every operand any oracle looks at). A full copy of a
 // 1024-item stack at every step of a loop is 32 KiB per event.
-const stackKeep = 40
+const stackKeep = 16
 
 func (e *Ev) keepStack(stack []uint256.Int) {
 	e.StackLen = len(stack)
